@@ -109,7 +109,7 @@ func shardingCone(c *core.Ctx, entries [][2]string) []*ssa.Function {
 			es = append(es, f)
 		}
 	}
-	return c.P.Cone(es, nil)
+	return c.P.Cone(es, onlyPkgs("sharding"))
 }
 
 func runC13(c *core.Ctx) {
